@@ -306,6 +306,14 @@ where
             }
             match guarded(&check, &case) {
                 Ok(()) => Ok(()),
+                Err(m) if m.starts_with("ENGINE") => {
+                    // harness-side problem (watchdog, scratch file, fork): never a violation
+                    let mut a = accr.borrow_mut();
+                    if a.res.notes.len() < 5 {
+                        a.res.notes.push(format!("ENGINE-ABORT: {}", m));
+                    }
+                    Ok(())
+                }
                 Err(m) => {
                     *failed.borrow_mut() = true;
                     Err(TestCaseError::fail(m))
@@ -374,6 +382,12 @@ where
                 ctx.crumb(self.name, &case);
             }
             if let Err(m) = guarded(&self.check, &case) {
+                if m.starts_with("ENGINE") {
+                    if acc.res.notes.len() < 5 {
+                        acc.res.notes.push(format!("ENGINE-ABORT: {}", m));
+                    }
+                    continue;
+                }
                 nviol += 1;
                 if nviol <= 3 {
                     let path = write_replay(ctx, self.name, &case, &m);
